@@ -956,6 +956,46 @@ fn reference_mi(words: &[&str]) -> (Vec<(String, usize, usize)>, Log) {
     (items, log)
 }
 
+// ---------------------------------------------------------------- callbacks holding macro fragments
+/// The enum is written by a `macro_rules!` macro and an `$x:expr` fragment (`1 + 1`) stands inside the
+/// inline callback: `len * $factor`. The fragment is ONE expression (it arrives in an invisible group);
+/// the callback the user wrote computes len * (1 + 1).
+macro_rules! scaled_enum {
+    ($name:ident, $factor:expr) => {
+        #[derive(Logos, Debug, Clone, PartialEq)]
+        #[logos(extras = Log, error = MyErr)]
+        pub enum $name {
+            #[regex("[a-z]+", |lex| { note(lex); lex.slice().len() * $factor })]
+            Word(usize),
+            // (the same fragment in a body that is not a block)
+            #[regex("[0-9]+", |lex| lex.slice().len() * $factor)]
+            Num(usize),
+            #[token(" ")]
+            Sp,
+        }
+    };
+}
+scaled_enum!(MX, 1 + 1);
+
+fn reference_mx(input: &str) -> (Vec<(String, usize, usize)>, Log) {
+    let (mut items, mut log): (Vec<(String, usize, usize)>, Log) = (vec![], vec![]);
+    let mut p = 0;
+    for w in input.split_inclusive(' ') {
+        let word = w.trim_end_matches(' ');
+        if !word.is_empty() && word.as_bytes()[0].is_ascii_digit() {
+            items.push((format!("Ok(Num({}))", word.len() * (1 + 1)), p, p + word.len()));
+        } else if !word.is_empty() {
+            log.push((p, p + word.len(), word.to_string()));
+            items.push((format!("Ok(Word({}))", word.len() * (1 + 1)), p, p + word.len()));
+        }
+        if w.ends_with(' ') {
+            items.push(("Ok(Sp)".to_string(), p + word.len(), p + word.len() + 1));
+        }
+        p += w.len();
+    }
+    (items, log)
+}
+
 fn observe<'s, T>(input: &'s str) -> (Vec<(String, usize, usize)>, Log)
 where
     T: Logos<'s, Source = str, Extras = Log> + std::fmt::Debug,
@@ -1100,6 +1140,10 @@ pub fn run(tier: &str, rep: &mut Report) {
             let s: String = ws.concat();
             check(rep, "MI", &s, observe::<MI>(&s), reference_mi(&ws), &mut digest);
         }
+    }
+    // a macro fragment inside an inline callback
+    for s in ["abc", "ab cde", "123", "abc 12345 de"] {
+        check(rep, "MX", s, observe::<MX>(s), reference_mx(s), &mut digest);
     }
     // closure bodies of several syntactic shapes
     strings(&["a", "b", "c", "f", "g", "h", "i", "0", "1", " ", "!", "é"], l + 1, &mut |s| check(rep, "CS", s, observe::<CS>(s), reference_cs(s), &mut digest));
